@@ -386,7 +386,11 @@ func (x *Exec) paramFacts(t Term, ty types.Type) {
 		} else {
 			x.smt.assume("(and (>= " + t + " 0) (< " + t + " " + a0 + "))")
 		}
-	case *types.Map, *types.Chan:
+	case *types.Chan:
+		x.smt.assume("(and (>= " + t + " 0) (< " + t + " " + a0 + "))")
+		// the total history a channel will ever carry has a non-negative length
+		x.smt.assume("(>= (select " + x.getSV("ChLen", arrII) + " " + t + ") 0)")
+	case *types.Map:
 		x.smt.assume("(and (>= " + t + " 0) (< " + t + " " + a0 + "))")
 	case *types.Slice:
 		if !isByteSlice(ty) {
